@@ -476,8 +476,8 @@ Lemma leaves_of_schema ls : Forall leaf_wf ls ->
 Proof.
   intros W. unfold leaves_of, root_selem. cbn [se_nchildren].
   rewrite !lenN_ok, map_length, Z.eqb_refl.
-  rewrite (map_rs_ok leaf_of (fun s => s) (map selem_of_l ls)) at 1.
-  - rewrite map_id.
-Abort.
+  induction W as [|l ls Wl Wls IH]; [reflexivity|].
+  cbn [map map_rs]. rewrite leaf_of_selem by exact Wl. cbn [rbind]. rewrite IH. reflexivity.
+Qed.
 
 End WithCodecs4.
